@@ -79,6 +79,9 @@ V2 == TStruct(Nm(86, 2), <<Field(fa, TInt, TRUE, FALSE)>>, RTuple)
 \* text: members without a value, before and after one that has a value), and a keyed union whose discriminants are the
 \* type names of the OTHER member
 E3 == TEnum(Nm(69, 3), <<<<65, 97>>, <<66, 98>>, <<67, 99>>>>, EString(<<<<65, 97>>, <<97>>, <<67, 99>>>>))
+\* nullable integers of narrow and unsigned Go widths (held through pointers), also as list elements
+L4 == TList(Nm(76, 4), TU64, TRUE)
+W2 == TStruct(Nm(87, 2), <<Field(fa, TU8, FALSE, TRUE), Field(fb, TI8, FALSE, TRUE), Field(fc, L4, FALSE, FALSE)>>, RMap(<<>>))
 U8 == TUnion(Nm(85, 9), <<TInt, TString>>, UKeyed(<<nString, nInt>>))
 \* a small kinded union with a recursive (struct) member, as list element and as map value: the SAME member kind occurs
 \* twice in one container (the parent's value assembler is reused); a stringprefix union as map value
@@ -90,7 +93,7 @@ M5 == TMap(Nm(77, 5), U3, FALSE)
 M6 == TMap(Nm(77, 6), U7, FALSE)
 
 Types == <<S1, S2, S3, S4, S5, L1, L2, M1, U1, U2, U3, E1, E2, M2, R1, R2, R3, R4, R5, R6, R7, R8, R9, S6, S7, U4,
-           R10, R11, R12, R13, W1, S8, M3, U5, S9, V1, U6, L3, M4, M5, M6, V2, E3, U8>>
+           R10, R11, R12, R13, W1, S8, M3, U5, S9, V1, U6, L3, M4, M5, M6, V2, E3, U8, L4, W2>>
 
 \* ---- inhabitants (typed values in canonical type-level form)
 IntVals == {Scalar("int", <<0, 1>>), Scalar("int", <<0, 2>>)}
